@@ -213,6 +213,17 @@ impl C18 {
                         let first_non_ws = chars.iter().position(|c| !c.is_whitespace()).unwrap_or(0);
                         let want_off = (ci.col_start - 1).saturating_sub(first_non_ws);
                         let want_n = ci.col_end + 1 - ci.col_start;
+                        // the marker is "under" a column only if the gutters of the source line and of the marker line are equally wide
+                        if let Some((b1, b2, b3)) = pi.bars {
+                            if b1 != b2 || b2 != b3 {
+                                out.push(mk(
+                                    "pretty/source",
+                                    "gutter",
+                                    format!("{which}: the bars of the excerpt for line {} stand in columns {b1}, {b2}, {b3}: the marker is shifted against the source line ({:?})", ci.line, ci.title),
+                                ));
+                                break;
+                            }
+                        }
                         // the marker line holds blanks and the marker, nothing that moves the cursor off the line or back
                         if let Some(bad) = pi.marker.as_deref().unwrap_or("").chars().find(|c| *c != '^' && *c != '\t' && (c.is_control() || !c.is_whitespace() || matches!(c, '\u{2028}' | '\u{2029}'))) {
                             out.push(mk(
